@@ -12,7 +12,7 @@ def job(args):
     opts = dict(opts)
     # safety net: a (mutated) tree whose state space does not close must not
     # hang the check; a capped run is reported as not exhaustive
-    cap = opts.pop('max_states', None) or (400000 if tier == 'quick' else 4000000)
+    cap = opts.pop('max_states', None) or (60000 if tier == 'quick' else 1500000)
     try:
         ad = SchedAdapter(desc, targets, props, **opts)
     except common.GraphMismatch as e:
